@@ -19,6 +19,15 @@ use crate::util::h64;
 
 pub const VERIF_DIR: &str = "/verif";
 
+/// directory holding replays/, evidence/, failures/, KNOWN_FINDINGS.txt: $SEQIO_VERIF_DIR (set by check.sh to
+/// its own location, so a snapshot run writes into the snapshot) or /verif
+pub fn verif_dir() -> PathBuf {
+    match std::env::var("SEQIO_VERIF_DIR") {
+        Ok(d) if !d.is_empty() => PathBuf::from(d),
+        _ => PathBuf::from(VERIF_DIR),
+    }
+}
+
 #[derive(Clone, Copy, Debug, PartialEq, Eq)]
 pub enum Tier {
     Quick,
@@ -233,7 +242,7 @@ pub struct Known {
 }
 
 pub fn load_known(id: &str) -> Vec<Known> {
-    let path = Path::new(VERIF_DIR).join("KNOWN_FINDINGS.txt");
+    let path = verif_dir().join("KNOWN_FINDINGS.txt");
     let mut v = Vec::new();
     if let Ok(s) = std::fs::read_to_string(path) {
         for line in s.lines() {
@@ -310,7 +319,7 @@ impl Run {
     }
 
     fn write_replay<C: Serialize>(&self, sub: &str, case: &C, f: &Failure) -> PathBuf {
-        let dir = Path::new(VERIF_DIR).join("failures");
+        let dir = verif_dir().join("failures");
         let _ = std::fs::create_dir_all(&dir);
         let v = json!({
             "property": self.id,
@@ -348,7 +357,7 @@ impl Run {
 
     /// Re-runs every committed regression file `replays/<ID>/*.json` whose "sub" equals `sub`.
     pub fn replays<P: Prop>(&mut self, sub: &str, p: &P) {
-        let dir = Path::new(VERIF_DIR).join("replays").join(&self.id);
+        let dir = verif_dir().join("replays").join(&self.id);
         let mut files: Vec<PathBuf> = match std::fs::read_dir(&dir) {
             Ok(rd) => rd.filter_map(|e| e.ok().map(|e| e.path())).filter(|p| p.extension().map_or(false, |e| e == "json")).collect(),
             Err(_) => return,
@@ -622,7 +631,7 @@ impl Run {
             "wall_s": wall,
             "violations": self.violations.len(),
         });
-        let dir = Path::new(VERIF_DIR).join("evidence");
+        let dir = verif_dir().join("evidence");
         let _ = std::fs::create_dir_all(&dir);
         let path = dir.join(format!("{}.json", self.id));
         std::fs::write(&path, serde_json::to_string_pretty(&ev).unwrap()).expect("cannot write evidence");
